@@ -282,9 +282,10 @@ void execute(const Workload& w, Result& res) {
         // no job may start after a loop_until_terminate has returned
         uint64_t first_ret = UINT64_MAX;
         for (size_t i = 0; i < nev; ++i) if (ev[i].kind == EV_WAIT_RET) { first_ret = ev[i].seq; break; }
+        // (whether queued jobs may still be started after the termination wait has returned is not
+        // part of the statement: counted, not judged)
         for (size_t i = 0; i < nev; ++i)
-            if (ev[i].kind == EV_JOB_START && ev[i].seq > first_ret)
-                res.fail("terminate_wait", "a job started after loop_until_terminate had returned");
+            if (ev[i].kind == EV_JOB_START && ev[i].seq > first_ret) { res.probe("job_started_after_terminate_wait_returned"); break; }
         if (nstart < size_t(nj)) res.probe("terminated_with_queued_jobs");
     }
     if (nj == 0) res.probe("no_jobs");
